@@ -53,16 +53,6 @@ WITNESSES = [
           '    s.l = [ Leaf() for _ in range(2) ]\n    for i in range(2):\n      s.l[i].p //= s.p\n      s.o[i] //= s.l[i].o\n'},
 ]
 
-F22 = 'F22-yosys-cast-of-compound-unparenthesised'
-WITNESSES += [
-  {'label': F22 + ':witness', 'finding': F22, 'variant': None, 'expect': ('output-mismatch',), 'backends': ('yosys',),
-   'features': ['finding-stream'],
-   'cycles': [{'.a': 3, '.b': 4, '.reset': 0}],
-   'src': 'from pymtl3 import *\n'
-          'class Top( Component ):\n  def construct( s ):\n    s.a = InPort( Bits4 )\n    s.b = InPort( Bits4 )\n    s.o = OutPort( Bits4 )\n'
-          '    @update\n    def up():\n      s.o @= s.a ^ Bits4( s.b | 1 )\n'},
-]
-
 # witnesses of defects repaired by fix: commits 06cfd35 (F20) and ad19f30 (F21): clean corpus cases now
 CORPUS += [
   {'label': 'corpus:fixed:' + F20 + ':subcomponent', 'backends': ('verilog', 'yosys'),
@@ -95,3 +85,14 @@ CORPUS += [
           '    @update\n    def up():\n      for i in range(2):\n        for j in range(3):\n          s.c[1].in0[i][j] @= s.x\n'
           '    s.o[0] //= s.c[0].out\n    s.o[1] //= s.c[1].out\n'},
 ]
+
+F22 = 'F22-yosys-cast-of-compound-unparenthesised'
+CORPUS_F22 = [
+  {'label': 'corpus:fixed:' + F22, 'backends': ('verilog', 'yosys'), 'features': ['corpus', 'fixed-defect-shape'],
+   'cycles': [{'.a': 3, '.b': 4, '.reset': 0}],
+   'src': 'from pymtl3 import *\n'
+          'class Top( Component ):\n  def construct( s ):\n    s.a = InPort( Bits4 )\n    s.b = InPort( Bits4 )\n    s.o = OutPort( Bits4 )\n'
+          '    @update\n    def up():\n      s.o @= s.a ^ Bits4( s.b | 1 )\n'},
+]
+
+CORPUS += CORPUS_F22      # repaired by fix: commit 0d5888c
